@@ -297,8 +297,9 @@ class Contentline(str):
 
         # TODO: after unicode only, remove this
         # Convert back to unicode, after to_ical encoded it.
+        # decode with plain utf-8: 'utf-8-sig' would drop a leading U+FEFF of the value
         name = to_unicode(name)
-        values = to_unicode(values)
+        values = to_unicode(values, encoding=DEFAULT_ENCODING)
         if params:
             params = to_unicode(params.to_ical(sorted=sorted))
             return cls(f'{name};{params}:{values}')
